@@ -10,12 +10,15 @@
    - C05_resid_zero_exact : the same for ANY coefficients that pass the exact division-free residual check which the
      harness evaluates on the coefficients returned by the implementation;
    - C05_poles_table_shape, C05_cell_nan_iff, C05_border_cell_nan : layout and joint NaN pattern of the pole tables;
-   - C05_gj_solver_contract : the executable Gauss-Jordan kernel used to run the model meets the solve contract.
+   - C05_gj_solver_contract : the executable Gauss-Jordan kernel used to run the model meets the solve contract;
+   - C05_pole_count : COUNTING (carrier without zero divisors, decidable equality): when A(z) has p m latent pairs with
+     pairwise different non-zero roots forming an invertible modal matrix, the (p+1) m values any full eigen-decomposition
+     of the bordered companion returns are a Permutation of those p m roots plus m zeros - one pole per root, nothing else.
    What is NOT proved is collected in C05_full_statement (a Definition: it asserts nothing). *)
-From Coq Require Import List Arith Lia Ring ZArith QArith Qcanon Bool.
-From PyOMA.Base Require Import Carrier FMat Cplx.
+From Coq Require Import List Arith Lia Ring ZArith QArith Qcanon Bool Permutation.
+From PyOMA.Base Require Import Carrier FMat Cplx EigCount.
 From PyOMA.Model Require Import M_plscf.
-From PyOMA.Proofs Require Import P_plscf.
+From PyOMA.Proofs Require Import P_plscf P_eigcount_c05.
 Import ListNotations.
 
 Section S.
@@ -134,12 +137,64 @@ Theorem C05_gj_solver_contract : forall eqz (eqz_sound:forall x, eqz x = true ->
 Proof. exact (gj_solver_contract R K Rth). Qed.
 End S.
 
+(* --- counting the poles (plscf.rmfd2ac + np.linalg.eig) ------------------------------------------------------
+   Carrier: commutative ring without zero divisors, 1 <> 0, decidable equality (every field with decidable equality;
+   complexify with EigCount.cplx_integral for complex roots).  m = Nch, p = n, N = (n+1) Nch.
+   Hypotheses: A_p left-invertible; p m latent pairs (z_j, v_j) of A(z) = sum_i A_i z^i with z_j zi_j = 1 (non-zero roots),
+   pairwise different; the modal matrix [geo_vec z_0 v_0 | .. | geo_vec z_{pm-1} v_{pm-1} | e_pm .. e_{N-1}] two-sided
+   invertible (witness Phii); eigen-solver contract Ac V = V diag(d), W V = I, V W = I.
+   Conclusion: [d_0 .. d_{N-1}] is a Permutation of [z_0 .. z_{pm-1}] ++ m zeros; the non-zero returned values are a
+   Permutation of the latent roots and exactly m returned values are zero (the NaN cells of C05_border_cell_nan); every
+   column of V with a non-zero value is a non-zero multiple of geo_vec z_j v_j and Cc maps it to that multiple of B(z_j) v_j. *)
+Section CP.
+Variable R:Type. Variable K:Ops R.
+Hypothesis Rth : ring_theory (o0 K) (o1 K) (oadd K) (omul K) (osub K) (oopp K) (@eq R).
+Hypothesis Hint : forall a b:R, omul K a b = o0 K -> a = o0 K \/ b = o0 K.
+Hypothesis H10 : o1 K <> o0 K.
+Hypothesis Rdec : forall x y:R, {x = y} + {x <> y}.
+
+Theorem C05_pole_count : forall (solve:solver R)
+  (Hsolve:forall d c A B X, solve d c A B = POk X -> feq d c (fmul K d A X) B)
+  (m p:nat) (Ad Bn:nat -> fmat R) (Ac Cc:fmat R),
+  (0 < m)%nat -> (1 <= p)%nat ->
+  rmfd2ac K solve m p Ad Bn = POk (Ac, Cc) ->
+  let N := (S p * m)%nat in
+  forall (z zi:nat -> R) (v:nat -> fmat R) (ApInv:fmat R),
+  feq m m (fmul K m ApInv (Ad p)) (fid K) ->
+  (forall j, (j < p*m)%nat -> omul K (z j) (zi j) = o1 K /\ feq m 1 (polymat_apply K m p Ad (z j) (v j)) (fzero K)) ->
+  (forall i j, (i < p*m)%nat -> (j < p*m)%nat -> i <> j -> z i <> z j) ->
+  forall (Phii V W:fmat R) (d:nat -> R),
+  feq N N (fmul K N (comp_modal R K m p z zi v) Phii) (fid K) ->
+  feq N N (fmul K N Phii (comp_modal R K m p z zi v)) (fid K) ->
+  feq N N (fmul K N Ac V) (fmul K N V (ediag K d)) ->
+  feq N N (fmul K N W V) (fid K) -> feq N N (fmul K N V W) (fid K) ->
+  Permutation (tab N d) (tab (p*m) z ++ repeat (o0 K) m) /\
+  (forall eqz:R -> bool, (forall x, eqz x = true <-> x = o0 K) ->
+     Permutation (filter (fun x => negb (eqz x)) (tab N d)) (tab (p*m) z) /\ length (filter eqz (tab N d)) = m) /\
+  exists (sg:nat -> nat) (c:nat -> R),
+    (forall k, (k < N)%nat -> (sg k < N)%nat) /\
+    (forall k k', (k < N)%nat -> (k' < N)%nat -> (sg k < p*m)%nat -> sg k = sg k' -> k = k') /\
+    (forall j, (j < p*m)%nat -> exists k, (k < N)%nat /\ sg k = j) /\
+    (forall k, (k < N)%nat -> (sg k < p*m)%nat ->
+       d k = z (sg k) /\ c k <> o0 K /\
+       (forall a, (a < N)%nat -> V a k = omul K (geo_vec K m p (z (sg k)) (zi (sg k)) (v (sg k)) a 0%nat) (c k)) /\
+       (forall l r, (r < l)%nat -> fmul K N Cc V r k = omul K (polymat_apply K m p Bn (z (sg k)) (v (sg k)) r 0%nat) (c k))) /\
+    (forall k, (k < N)%nat -> (p*m <= sg k)%nat -> d k = o0 K).
+Proof.
+  intros solve Hsolve m p Ad Bn Ac Cc Hm Hp E N z zi v ApInv Hinv Hroots Hdist Phii V W d.
+  exact (companion_pole_count R K Rth Hint H10 Rdec solve Hsolve m p Ad Bn Ac Cc Hm Hp E z zi v ApInv Hinv Hroots Hdist Phii V W d).
+Qed.
+End CP.
+
 (* The whole property, including what the theorems above take as hypotheses.  A Definition: asserts nothing.
-   Missing for a proof of it: (1) determinant theory - that the (n+1) Nch eigenvalues returned by np.linalg.eig,
-   with multiplicity, are Nch zeros plus the n Nch roots of det A(z) (the theorems give the eigenPAIR correspondence,
-   not the counting with multiplicities, and assume a full eigen-decomposition exists); (2) that Ro and the
-   constrained block of M are invertible for >= 4(n+1) distinct lines on the unit circle and "well-conditioned"
-   A, B (taken as hypotheses Rinv, W); (3) the transcendental map z -> log z / dt, |.|, and IEEE rounding of LAPACK. *)
+   Counting with multiplicity is now C05_pole_count, which takes as hypotheses what is still missing for a proof of the
+   statement below: (1) that p m latent pairs with pairwise different non-zero roots EXIST and that their block-geometric
+   vectors together with the border basis form an invertible matrix (for pairwise different roots this is independence of
+   eigenvectors + "N independent vectors of K^N are a two-sided invertible matrix", i.e. dimension / determinant theory;
+   repeated roots are not covered), and that np.linalg.eig returns a full (two-sided invertible) eigenvector matrix;
+   (2) that Ro and the constrained block of M are invertible for >= 4(n+1) distinct lines on the unit circle and
+   "well-conditioned" A, B (taken as hypotheses Rinv, W); (3) the transcendental map z -> log z / dt, |.|, and IEEE
+   rounding of LAPACK. *)
 Definition C05_full_statement : Prop :=
   forall (R:Type) (K:Ops R) (solve:solver R) (eig:nat -> fmat R -> list (C R * list (C R))) (clogdt:C R -> option (C R))
          (gt0:R -> bool) (ltb:R -> R -> bool) (eqz:R -> bool) (Nf Nch Nref n:nat) (cs:constr) (X:cmat R)
@@ -179,6 +234,7 @@ Print Assumptions C05_cell_nan_iff.
 Print Assumptions C05_border_cell_nan.
 Print Assumptions C05_gj_solver_contract.
 Print Assumptions C05_plscf_exact_partial.
+Print Assumptions C05_pole_count.
 
 From Coq Require Import String.
 From PyOMA.Base Require Import Show.
@@ -219,3 +275,22 @@ Example C05_example_tables :
                                  ([[q 1 1; q 2 1; q 0 1; q 0 1]], ex_cells)])
   = "9p4 9p4;nan nan;nan nan;nan 37p4|3p2,9p4 3p2,9p4;nan nan;nan nan;nan -1p2,37p4|1p0,0p0@1p0,0p0 1p0,0p0@1p0,0p0;nan nan;nan nan;nan 1p0,5p0@1p0,5p0|-3p2,0p0 -3p2,0p0;nan nan;nan nan;nan 1p2,3p1".
 Proof. vm_compute. reflexivity. Qed.
+
+(* pole count: the companion example above (roots 1/2 and 1/3 of det A(z), m = 2, p = 1, N = 4) meets every hypothesis of
+   C05_pole_count, with a solver output that lists the values as (0, 1/3, 0, 1/2) and mixed / rescaled eigenvectors;
+   the carrier hypotheses hold at Qc *)
+Example C05_example_pole_count :
+  rmfd2ac QcOps qsolver 2 1 ec5_Ad ec5_Bn = POk (ec5_Ac, ec5_Cc) /\
+  feq 2 2 (fmul QcOps 2 ec5_ApInv (ec5_Ad 1%nat)) (fid QcOps) /\
+  (forall j, (j < 1 * 2)%nat -> omul QcOps (ec5_z j) (ec5_zi j) = o1 QcOps /\
+                                feq 2 1 (polymat_apply QcOps 2 1 ec5_Ad (ec5_z j) (ec5_v j)) (fzero QcOps)) /\
+  (forall i j, (i < 1 * 2)%nat -> (j < 1 * 2)%nat -> i <> j -> ec5_z i <> ec5_z j) /\
+  feq 4 4 (fmul QcOps 4 (comp_modal Qc QcOps 2 1 ec5_z ec5_zi ec5_v) ec5_Phii) (fid QcOps) /\
+  feq 4 4 (fmul QcOps 4 ec5_Phii (comp_modal Qc QcOps 2 1 ec5_z ec5_zi ec5_v)) (fid QcOps) /\
+  feq 4 4 (fmul QcOps 4 ec5_Ac ec5_V) (fmul QcOps 4 ec5_V (ediag QcOps ec5_d)) /\
+  feq 4 4 (fmul QcOps 4 ec5_W ec5_V) (fid QcOps) /\ feq 4 4 (fmul QcOps 4 ec5_V ec5_W) (fid QcOps) /\
+  tab 4 ec5_d = [o0 QcOps; ec5_z 1%nat; o0 QcOps; ec5_z 0%nat].
+Proof. exact ec5_hyps. Qed.
+Example C05_example_carrier :
+  (forall a b:Qc, omul QcOps a b = o0 QcOps -> a = o0 QcOps \/ b = o0 QcOps) /\ o1 QcOps <> o0 QcOps.
+Proof. exact (conj qc_integral qc_one_neq_zero). Qed.
